@@ -18,6 +18,18 @@ CHECKS = {
              text="Decides the three clauses structurally for every history: append removes entries >= the new index before every push; snapshot compaction keeps exactly entries > the recorded snapshot index; last index/term falls back to the snapshot only for an empty log.", ref="§5 C31"),
  "C03": dict(tech="identity-flow (def-use) of the cache key and cached value; normaliser verified against delimiter/whitespace sets read from cypher.pest; call-graph purity of parse_query",
              text="Decides jointly sufficient conditions on every path of cached_parse: key identity up to a whitespace normaliser that provably acts only outside string/comment-bearing queries and only on grammar whitespace; stored value = parse of the same string; hit returns its clone; parse is pure.", ref="§5 C03"),
+ "C24": dict(tech="control-dependence of the accepting return on a classifier call over the same string; classifier body checked to return only false or !plan(parse(stmt)).is_write; sibling check is_mutating operators vs planner is_write",
+             text="Decides, for every path of text_to_cypher, that a statement is handed back only when plan(parse(stmt)).is_write is false (parse/plan failure rejects), and cross-checks that every operator declaring is_mutating()=true is planned with is_write=true. Sufficient for the property given the planner's classification is right.", ref="§5 C24"),
+ "C23": dict(tech="data-dependence of the routing branch on an engine classifier (not text predicates); dominance of the is_write refusal in the read executor; CHA call-graph unreachability of index-manager mutators from the read path",
+             text="Decides that both front ends route on the engine's own plan classification of the executed string, that the read executor refuses write plans before pulling operators, and that no interior-mutable index mutator is reachable from it. Row/JSON equality between front ends is not decided.", ref="§5 C23"),
+ "C17": dict(tech="CFG rule on scan loops (record uses behind key-vs-prefix test), dominance of tenant validation over RocksDB calls, separator agreement from format templates",
+             text="Decides isolation structurally for every accepted tenant id: scans stop at the prefix, ids containing the separator are rejected before any key is built, all key builders / prefixes / listing share the separator.", ref="§5 C17"),
+ "C15": dict(tech="error-handling idiom rule on read sites, def-use of the sequence initialiser to a record-decoding function, field-coverage effect rule, write-order dominance",
+             text="Decides torn-tail handling at both reads of replay, sequence continuation from decoded log contents, checksum field coverage (one known finding: sequence not covered) and append's write order. Byte-level bincode behaviour is not decided.", ref="§5 C15"),
+ "C16": dict(tech="dominance (log-before-data) and must-pass-through (every path append -> Ok meets a storage write or the not-found branch of a storage read) over MIR CFGs; call-graph fact that recover never replays the log",
+             text="Decides that every acknowledged entry kind has a storage effect on every path (necessary because recovery reads storage only) and that the log write precedes the storage write. Value equality of recovered entities is not decided.", ref="§5 C16"),
+ "C18": dict(tech="lock-scope rule (quota check and increment inside one write-guard live range of one function), dominance over I/O, release on error exits, assign-vs-add classification of usage writes",
+             text="Decides the race clause for every interleaving: check and count cannot be separated by another writer because they share one critical section; reservation precedes I/O and is released on failure; recovery assigns usage.", ref="§5 C18"),
 }
 
 NA = {
